@@ -426,3 +426,149 @@ def msgkind(ctx):
     wantq = {"AtMostOnce": ["FireAndForget"], "AtLeastOnce": ["AwaitAck"], "ExactlyOnce": ["AwaitAck", "AwaitAck"]}
     out.append(Inst("MSGKIND", "publish:per-qos", per == wantq, pb.site(b), "per QoS branch: %s" % per, "%s" % wantq))
     return out
+
+
+@rule("RSP-VARIANT", floor=6)
+def rsp_variant(ctx):
+    """Each handle operation that waits for an acknowledgement matches, on the value its own oneshot
+    receiver yields, exactly the acknowledgement variant the standard prescribes for the request it
+    enqueued with the matching sender (spec/acks.json); the response is built from that packet moved
+    whole. With KEY/LOOKUP this is why the `unreachable!` arms of those matches cannot be reached."""
+    req = ctx.spec("acks")["request_to_ack"]
+    out = []
+    for name, body in ctx.handle_ops().items():
+        # enqueued messages: channel local -> expected acknowledgement
+        expect = {}
+        for e in [e for e in ctx.effects(body) if e.kind == "Enqueue"]:
+            agg, _ = _agg_of(body, e.term["ops"][1])
+            if agg is None:
+                continue
+            inner, _ = _agg_of(body, agg["ops"][0])
+            if inner is None:
+                continue
+            fields = dict(zip(inner["fields"], inner["ops"]))
+            rc = fields.get("response_channel")
+            ch = _channel_local(body, rc) if rc is not None else None
+            aid = fields.get("action_id")
+            want = None
+            if aid is not None:
+                o = body.origin(aid, through_calls=False)
+                if o[0] == "call" and (callee_name(o[2]) or "").endswith("tx_action_id"):
+                    targ, _ = _agg_of(body, o[2]["ops"][0])
+                    if targ is not None:
+                        v = targ["variant"]
+                        if v == "Publish":
+                            q = _qos_branch(body, e.inner_bb)
+                            want = req.get("Publish/%s" % q)
+                        else:
+                            want = req.get(v)
+            if ch is not None:
+                expect[ch] = (want, e)
+        for a in body.awaits():
+            t = body.term(a["poll_bb"])
+            st = (t["callee"].get("self_ty") or "") + " " + (t["callee"].get("resolved") or "")
+            if "oneshot::Receiver" not in st:
+                continue
+            ch = _channel_local(body, t["ops"][0])
+            want, enq = expect.get(ch, (None, None))
+            # the closure(s) applied to the awaited value
+            matched = None
+            whole = None
+            site = body.site(a["poll_bb"])
+            for i, tt in body.calls(r"result::Result::map$"):
+                if not body.dominates(a["ready_bb"], i):
+                    continue
+                src_at = body.atoms(tt["ops"][0])
+                if not any(x[0] == "call" and "oneshot::Receiver" in x[1] for x in src_at):
+                    continue
+                # nearest: the receiver polled must be the one of this await
+                if _channel_local(body, _poll_operand_of(body, tt["ops"][0])) != ch:
+                    continue
+                for x in body.atoms(tt["ops"][1]):
+                    if x[0] == "closure":
+                        cb = ctx.world.body(x[1])
+                        sw, arms, otherwise, other_vs, si = match_arms(cb, RXPACKET)
+                        if len(arms) == 1:
+                            matched = list(arms)[0]
+                            ret = cb.atoms({"l": 0, "p": []})
+                            whole = any(y[0] == "downcast" and y[1] == matched for y in ret)
+                            site = cb.site(sw)
+            if want is None and matched is None:
+                continue        # fire-and-forget: nothing to match
+            ok = matched == want and (bool(whole) or want == "Pingresp")    # PINGRESP has no content to carry
+            out.append(Inst("RSP-VARIANT", "%s:%s" % (name, want or "none"), ok, site,
+                            "the request expects %s; the awaited value is matched against RxPacket::%s and the response %s" % (want, matched, "is built from that packet" if whole else "is NOT built from it"),
+                            "spec/acks.json request_to_ack; response carries the acknowledgement's content"))
+    return out
+
+
+def _channel_local(body, op):
+    """Local holding the (sender, receiver) pair of the oneshot::channel() this endpoint belongs to."""
+    cur = op
+    for _ in range(10):
+        if cur is None or cur.get("k") == "const":
+            return None
+        pl = cur["pl"]
+        ds = body.whole_defs(pl["l"])
+        if len(ds) != 1:
+            return None
+        d = ds[0]
+        if d[0] == "call":
+            nm = callee_name(d[2]) or ""
+            if nm.endswith("oneshot::channel"):
+                return pl["l"]
+            if nm in Body.PASS_THROUGH and d[2]["ops"]:
+                cur = d[2]["ops"][0]
+                continue
+            return None
+        if d[0] == "stmt":
+            rv = d[3]["rv"]
+            if rv["k"] == "use":
+                cur = rv["op"]
+                continue
+            if rv["k"] in ("ref",):
+                cur = {"k": "copy", "pl": rv["pl"]}
+                continue
+        return None
+    return None
+
+
+def _poll_operand_of(body, op):
+    """From the value produced by an await (`(_poll as Ready).0` moved around), the operand that was polled."""
+    cur = op
+    for _ in range(12):
+        if cur is None or cur.get("k") == "const":
+            return None
+        pl = cur["pl"]
+        ds = body.whole_defs(pl["l"])
+        if len(ds) != 1:
+            return None
+        d = ds[0]
+        if d[0] == "call":
+            nm = callee_name(d[2]) or ""
+            if nm.endswith("Future::poll"):
+                return d[2]["ops"][0]
+            if d[2]["ops"] and (nm in Body.PASS_THROUGH or nm.endswith("Try::branch") or nm.endswith("Result::map") or nm.endswith("Result::and_then")):
+                cur = d[2]["ops"][0]
+                continue
+            return None
+        if d[0] == "stmt" and d[3]["rv"]["k"] in ("use", "ref"):
+            rv = d[3]["rv"]
+            cur = rv["op"] if rv["k"] == "use" else {"k": "copy", "pl": rv["pl"]}
+            continue
+        return None
+    return None
+
+
+def _qos_branch(body, bb):
+    for (d, s_) in dominating_edges(body, bb):
+        si = body.switch_info(d)
+        if si and si["kind"] == "discr" and si.get("adt") == QOS:
+            vals = body.edge_value(d, s_)
+            names = [si["variants"].get(v) for v in vals if v != "otherwise"]
+            if "otherwise" in vals:
+                listed = {si["variants"].get(v) for v, _ in si["targets"]}
+                names += [x for x in si["variants"].values() if x not in listed]
+            if len(names) == 1:
+                return names[0]
+    return None
